@@ -12,6 +12,12 @@ inductive Write where
   | tac (v : Nat)
 deriving DecidableEq, Repr
 
+/-- free alphabet: single events in any order (a harness can do several writes per cycle) -/
+inductive Call where
+  | tick
+  | write (w : Write)
+deriving DecidableEq, Repr
+
 /-- the four registers as read in the next machine cycle, and the interrupt request of this one -/
 structure Obs where
   div  : Nat
